@@ -23,6 +23,7 @@ import EaselModel.Weights.Transfer
 import EaselModel.Weights.TieRule
 import EaselModel.Weights.TreeOpsLemmas
 import EaselModel.Weights.FloatCarrier
+import EaselModel.Weights.PathMetric
 /-! # C16 — sequence weights, identity filtering and clustering follow their definitions
 
   Theorems about the `ℚ` instance of the executable model `EaselModel.Weights` (the `Float` instance of the same
@@ -1235,5 +1236,43 @@ example : RoundingOK flRel (1 / 1048576) 400 := flRel_ok
 example : linked (α := Rd flRel) Mode.text ⟨flRel ((2 : ℕ) / (3 : ℕ))⟩ [65, 67, 45, 97] [97, 71, 45, 65] = true := by
   rw [linked_rd flRel_ok Mode.text 2 3 (by decide) (by decide) (by decide) _ _ (by decide)]
   decide +kernel
+
+/-! ## round 6b: `esl_tree_ToDistanceMatrix` returns the path metric of the tree
+
+  `TreePath t a b w` (Weights/PathMetric.lean) specifies path length between internal nodes without reference to the
+  algorithm: 0 from a node to itself; if a is not an ancestor-or-self of b the path starts with the branch above a; likewise
+  for b. `ParentsSmaller`: Easel's numbering (root 0, parents numbered before their children — what `cluster_engine`,
+  `esl_tree_Simulate` and `esl_tree_RenumberNodes` produce). -/
+
+/-- every entry (i, j) of the matrix is defined (the unbounded `while (a != b)` loop ends) and equals the two terminal
+    branches plus the length of a tree path between the two parent nodes -/
+theorem toDistanceMatrix_is_path_metric {t : ETree ℚ} (h : ParentsSmaller t) (tp : Array Int) (i j : Nat)
+    (hi : (tp.getD i 0).toNat < t.N) (hj : (tp.getD j 0).toNat < t.N) :
+    ∃ w, TreePath t (tp.getD i 0).toNat (tp.getD j 0).toNat w ∧
+      eDist t tp i j = some
+        ((if t.l (tp.getD i 0).toNat == -(i : Int) then t.dl (tp.getD i 0).toNat else t.dr (tp.getD i 0).toNat) +
+         (if t.l (tp.getD j 0).toNat == -(j : Int) then t.dl (tp.getD j 0).toNat else t.dr (tp.getD j 0).toNat) + w) :=
+  eDist_path h tp i j hi hj
+
+/-- the LCA loop by itself: whatever it returns is the start value plus a tree-path length, and it returns for a + b < fuel -/
+theorem lcaLoop_path_and_terminates {t : ETree ℚ} (h : ParentsSmaller t) (fuel a b : Nat) (d : ℚ) :
+    (∀ r, eLca t fuel a b d = some r → ∃ w, TreePath t a b w ∧ r = d + w) ∧
+    (a + b < fuel → (eLca t fuel a b d).isSome = true) :=
+  ⟨fun r hr => eLca_path h fuel a b d r hr, eLca_terminates h fuel a b d⟩
+
+/-- non-vacuity: the 4-taxon simulated tree of the example above is numbered parents-first; taxa 0 and 3 are 13/6 apart
+    (both at depth 13/12 below the root, which is their last common ancestor) -/
+def exT : ETree ℚ := ⟨4, #[0, -1, -2], #[1, 2, -3], #[0, 0, 1], #[13/12, 7/12, 1/4], #[1/2, 1/3, 1/4]⟩
+example : ParentsSmaller exT := by
+  refine ⟨by decide +kernel, ?_⟩
+  intro v hv
+  by_cases h3 : v < 3
+  · have : v = 1 ∨ v = 2 := by omega
+    rcases this with rfl | rfl <;> decide +kernel
+  · have : exT.p v = 0 := by
+      unfold ETree.p
+      rw [Array.getD_eq_getD_getElem?, Array.getElem?_eq_none (by show 3 ≤ v; omega)]; rfl
+    omega
+example : eDist exT (eTaxaParents exT) 0 3 = some (13/6) ∧ eDist exT (eTaxaParents exT) 2 3 = some (1/2) := by decide +kernel
 
 end EaselModel.Props.C16
